@@ -175,6 +175,8 @@ def run(ctx: Ctx):
     # the discount matrix is gamma^(t' - t) restricted to t' >= t: ratio of powers, one triangular half
     okd = any("torch.pow(gamma, " in u(n) for n in own_nodes(tdr.node) if isinstance(n, ast.Assign))
     col.ob("G12", "S3", "_rl.py::time_distributed_return::discount=gamma^exp", okd, "discounts are not powers of gamma", "_rl.py", tdr.line)
+    # ---- S4 feat_deltas: each dimension argument is normalised against the rank of the tensor it indexes -----------
+    _delta_dims(ctx)
     plumbing(ctx, "S2")
     return dict(
         explanation=(
@@ -185,20 +187,101 @@ def run(ctx: Ctx):
             "own population statistics are used; (S2) Module->functional forwarding for normalisation, deltas and returns, "
             "the statistics command builds MeanVarianceNormalization(dim), accumulates every tensor once and stores with "
             "the requested Bessel flag; (S3) gamma == 0 returns the rewards themselves and the two layouts are transposes. "
+            "(S4) in feat_deltas the negative forms of `time_dim` / `dim` are resolved against the rank of the input / of "
+            "the output (input rank + 1 when stacking), and the range checks use the same rank. "
             "NOT decided: delta filter values and dimension shuffling, the triangular discount product values, unit "
             "variance after normalisation (floating point)."),
-        decided=["S1", "S2", "S3"],
+        decided=["S1", "S2", "S3", "S4"],
         not_decided=["delta filter values / layout", "discount matrix values", "zero mean / unit variance numerically"],
         assumptions=["exact (real) arithmetic for partition invariance; double precision accumulation is trusted"],
     )
 
 
+def _delta_dims(ctx: Ctx):
+    """S4: feat_deltas is specialised for concatenate in (True, False); the modulus that resolves a negative `time_dim`
+    (`dim`) must be the input rank (the output rank: input rank, plus one when the deltas are stacked)."""
+    from sa import minmax as MM
+    from sa.defuse import ReachingDefs
+    from sa.specialise import specialise
+    col, pkg = ctx.col, ctx.pkg
+    f = pkg.func("_feats::feat_deltas")
+    rel = f.module.relname
+    xname = f.params[0].name
+    n_ok = 0
+    for conc in (True, False):
+        node, folded = specialise(f.node, {"concatenate": conc})
+        if folded < 2:
+            raise AnalysisError("C18: feat_deltas no longer branches on `concatenate` twice")
+        rd = ReachingDefs(node)
+
+        def leaf_of_expr(e):
+            if isinstance(e, ast.Attribute) and e.attr == "ndim" and u(e.value) == xname:
+                return "R"
+            if isinstance(e, ast.Call) and isinstance(e.func, ast.Attribute) and e.func.attr == "dim" and u(e.func.value) == xname and not e.args:
+                return "R"
+            return None
+        ex = MM.Extractor(rd, lambda d: None, leaf_of_expr)
+        for pname, extra, what in (("time_dim", 0, "input"), ("dim", 0 if conc else 1, "output")):
+            # the normalising definitions of the formal: `p = (p + M) % M`  or  `if p < 0: p += M`
+            mods = []
+            for d in rd.defs:
+                if d.name != pname or d.kind not in ("assign", "aug"):
+                    continue
+                v = d.value
+                if d.kind == "assign" and isinstance(v, ast.BinOp) and isinstance(v.op, ast.Mod) and isinstance(v.left, ast.BinOp) \
+                        and isinstance(v.left.op, ast.Add):
+                    a, b = v.left.left, v.left.right
+                    other = b if (isinstance(a, ast.Name) and a.id == pname) else a
+                    mods += [other, v.right]
+                elif d.kind == "aug" and isinstance(v, ast.AugAssign) and isinstance(v.op, ast.Add):
+                    mods.append(v.value)
+                else:
+                    col.undecided(f"C18: `{u(d.stmt)[:60]}` redefines `{pname}` in an unrecognised way")
+            if not mods:
+                raise AnalysisError(f"C18: feat_deltas does not resolve a negative `{pname}`")
+            bad = []
+            for m in mods:
+                try:
+                    t = ex.term(m)
+                except MM.Unknown as e:
+                    col.undecided(f"C18: modulus `{u(m)}` of `{pname}`: {e}")
+                    continue
+                env, g, w, n = MM.counterexample(t, lambda v: v["R"] + extra, (dict(R=r) for r in range(1, 7)))
+                if env is not None:
+                    bad.append((u(m), MM.show(t)))
+            # range checks on the formal compare against the same rank
+            for n_ in ast.walk(node):
+                if isinstance(n_, ast.If) and any(isinstance(x, ast.Raise) for x in n_.body):
+                    for c in ast.walk(n_.test):
+                        if isinstance(c, ast.Compare) and isinstance(c.left, ast.Name) and c.left.id == pname and len(c.ops) == 1 \
+                                and isinstance(c.ops[0], ast.GtE):
+                            try:
+                                t = ex.term(c.comparators[0])
+                            except MM.Unknown as e:
+                                col.undecided(f"C18: bound `{u(c)}`: {e}")
+                                continue
+                            env, g, w, n = MM.counterexample(t, lambda v: v["R"] + extra, (dict(R=r) for r in range(1, 7)))
+                            if env is not None:
+                                bad.append((u(c), MM.show(t)))
+            n_ok += 1
+            col.ob("G19", "S4", f"{rel}::feat_deltas::{pname}-resolved-against-{what}-rank[concatenate={conc}]", not bad,
+                   f"with concatenate={conc}, `{pname}` indexes the {what} tensor of rank R{'+1' if extra else ''} but is "
+                   f"resolved / range-checked against {bad}: a negative `{pname}` lands on a different axis than the "
+                   f"same position counted from the left", rel, f.line, sample=[u(m) for m in mods])
+    col.floor("delta_dim_obligations", n_ok, 4)
+
+
 def _mutants():
     from selftest.mutate import Mutant as M
+    _extra = [
+        M("dim-resolved-before-stack-rank", "_feats.py", "if not concatenate:\n        D += 1", "dim = (dim + D) % D\n    if not concatenate:\n        D += 1", "dim-resolved-against-output-rank"),
+        M("time-dim-against-output-rank", "_feats.py", "time_dim = (time_dim + D) % D\n    if not concatenate:\n        D += 1", "if not concatenate:\n        D += 1\n    time_dim = (time_dim + D) % D", "time_dim-resolved-against-input-rank"),
+        M("twin:dim-resolved-by-if", "_feats.py", "dim = (dim + D) % D", "if dim < 0:\n        dim += D", "", twin=True),
+    ]
     F = "_feats.py"
     R = "_rl.py"
     C = "command_line.py"
-    return [
+    return _extra + [
         M("running-mean-update", F, "sum_ += x.sum(1)", "sum_ += x.sum(1) - sum_ / count.clamp_min(1)", "sum+=term(x)"),
         M("count-overwritten", F, "count += x.size(1)", "count.fill_(x.size(1))", "count+=term(x)"),
         M("sumsq-of-sum", F, "sumsq += x.square().sum(1)", "sumsq += x.sum(1).square()", "accumulate::terms"),
